@@ -90,10 +90,18 @@ def run(p: Program, rep: Report, tier: str) -> None:
         rep.ok("R18.2", "the query string is appended only when non-empty")
     else:
         rep.violation("R18.2", construct(build, text="query not tested"), where(build), "_build_url never tests the query string: '?' is appended (or the query dropped) regardless of whether there is a query")
-    tables = [n for n in ast.walk(build.node) if isinstance(n, ast.Subscript) and isinstance(n.value, ast.Dict)]
+    def _table_expr(n: ast.Subscript):
+        """the dict literal that is indexed: written in place or held by a module-level constant"""
+        if isinstance(n.value, ast.Dict):
+            return n.value
+        if isinstance(n.value, ast.Name) and isinstance(url.module.constants.get(n.value.id), ast.Dict):
+            return url.module.constants[n.value.id]
+        return None
+
+    tables = [n for n in ast.walk(build.node) if isinstance(n, ast.Subscript) and _table_expr(n) is not None]
     if len(tables) == 1:
         try:
-            tbl = F.fold(url.module, tables[0].value)
+            tbl = F.fold(url.module, _table_expr(tables[0]))
         except NotConst:
             tbl = None
         if tbl == {"http": 80, "https": 443, "ws": 80, "wss": 443}:
@@ -444,7 +452,17 @@ def gateway_url_branches(p: Program, rep: Report, rule: str) -> None:
             continue
         h = bs[0].b[4]
         name_eq = (("cmp", "Eq", ("unpack", HDRS, 0), ("const", b"host")), True) in pa.facts or (("cmp", "Eq", ("const", b"host"), ("unpack", HDRS, 0)), True) in pa.facts
-        val_ok = h[0] == "call" and h[1] == ("attr", ("unpack", HDRS, 1), "decode") and h[2][:1] in ((("const", "latin-1"),), (("const", "latin1"),), (("const", "iso-8859-1"),))
+
+        def decoded_value(x):
+            return x[0] == "call" and x[1] == ("attr", ("unpack", HDRS, 1), "decode") and x[2][:1] in ((("const", "latin-1"),), (("const", "latin1"),), (("const", "iso-8859-1"),))
+
+        val_ok = decoded_value(h)
+        # the same scan written as next(<generator over the pairs named b"host">, None): first match, else None
+        if h[0] == "call" and h[1] == ("builtin", "next") and len(h[2]) == 2 and h[2][1] == NONE and h[2][0][0] == "comp" and h[2][0][1] == "gen":
+            g = h[2][0]
+            conds = g[4]
+            if g[3] == HDRS[1] and decoded_value(g[2]) and len(conds) == 1 and conds[0] in (("cmp", "Eq", ("unpack", HDRS, 0), ("const", b"host")), ("cmp", "Eq", ("const", b"host"), ("unpack", HDRS, 0))):
+                name_eq = val_ok = True
         if name_eq and val_ok:
             host_ok = True
         else:
